@@ -9,11 +9,11 @@ open Influx.Spec.C17 (Ans Verd Abs)
 
 namespace Influx.Drv.C17
 
-def parsePoints (s : String) : Option (List (Bytes × List (Int × Int))) :=
+def parsePoints (s : String) : Option (List ((Bytes × Tags) × List (Int × Int))) :=
   if s = "-" then some [] else
   (s.splitOn ";").mapM fun g =>
     match g.splitOn "=" with
-    | [k, ps] => match hexDecode k, parsePts ps with
+    | [k, ps] => match parseSeriesId k, parsePts ps with
       | some kb, some l => some (kb, l)
       | _, _ => none
     | _ => none
@@ -23,16 +23,74 @@ def parseAns (op : Op) (s : String) : Ans :=
   else if s.startsWith "err" ∨ s.startsWith "panic" ∨ s = "timeout" ∨ s = "skipped" ∨ s = "bad-op" then .other s else
   match op with
   | .read _ => (parsePoints s).elim (.other s) .points
-  | .ls _ | .mn .. => ((splitComma s).mapM hexDecode).elim (.other s) .keys
+  | .ls _ => ((splitComma s).mapM parseSeriesId).elim (.other s) .ids
+  | .mn .. => ((splitComma s).mapM hexDecode).elim (.other s) .keys
   | _ => .other s
 
+/-! ### epoch ops -/
+
+open Influx.Model.Epoch (EOp EAns Tracker)
+
+def parseEOp : List String → Option EOp
+  | ["epw", id, ts] => match id.toInt?, parseInts ts with
+    | some i, some l => some (.startWrite i l)
+    | _, _ => none
+  | ["epe", id] => id.toInt?.map .endWrite
+  | ["epd", id, lo, hi] => match id.toInt?, lo.toInt?, hi.toInt? with
+    | some i, some a, some b => some (.waitDelete i a b)
+    | _, _, _ => none
+  | ["epp", id] => id.toInt?.map .pending
+  | ["epx", id] => id.toInt?.map .done
+  | _ => none
+
+def renderE : EAns → String
+  | .ok => "ok"
+  | .badOp => "bad-op"
+  | .started g w => s!"gen={g} wait={showInts w}"
+  | .installed g p => s!"gen={g} pending={p}"
+  | .pending p => s!"pending={p}"
+
+def kv (s key : String) : Option String :=
+  if s.startsWith (key ++ "=") then some ((s.drop (key.length + 1)).toString) else none
+
+def parseEAns (s : String) : Option EAns :=
+  if s = "ok" then some .ok else if s = "bad-op" then some .badOp else
+  match s.splitOn " " with
+  | [a, b] =>
+    match kv a "gen", kv b "wait", kv b "pending" with
+    | some g, some w, _ => match g.toNat?, parseInts w with
+      | some gn, some wl => some (.started gn wl)
+      | _, _ => none
+    | some g, none, some p => match g.toNat?, p.toInt? with
+      | some gn, some pi => some (.installed gn pi)
+      | _, _ => none
+    | _, _, _ => none
+  | [a] => (kv a "pending").bind fun p => p.toInt?.map .pending
+  | _ => none
+
+def isEpoch (toks : List String) : Bool := (toks.head?.map (·.startsWith "ep")).getD false
+
 def oracle (obs : List (List String × String)) : Verdict :=
+  let eobs := obs.filter fun (toks, _) => isEpoch toks
+  let obs := obs.filter fun (toks, _) => !isEpoch toks
+  let eparsed := eobs.map fun (toks, ans) => (toks, parseEOp toks, parseEAns ans, ans)
+  let ebad := eparsed.filter fun (_, op, a, raw) => (op.isNone && raw ≠ "bad-op") || (op.isSome && a.isNone)
+  let egood : List (EOp × EAns) := eparsed.filterMap fun (_, op, a, _) => match op, a with
+    | some o, some x => some (o, x)
+    | _, _ => none
+  let eok := Spec.C17.EpochOK egood && ebad.isEmpty
   let parsed := obs.map fun (toks, ans) => (toks, parseOp toks, ans)
   let badLines := parsed.filter fun (_, op, ans) => op.isNone && ans ≠ "bad-op"
   let goodT : List (List String × Op × Ans) := parsed.filterMap fun (toks, op, ans) => op.map fun o => (toks, o, parseAns o ans)
   let good : List (Op × Ans) := goodT.map (·.2)
-  let vs := Spec.C17.judgeCase [] good
-  let ok := Spec.C17.holdsOn good && badLines.isEmpty
+  let (nsh, body) := match good with
+    | (.open_ n, .ok) :: rest => (n, rest)
+    | _ => (0, good)
+  let goodT := match good with
+    | (.open_ _, .ok) :: _ => goodT.drop 1
+    | _ => goodT
+  let vs := Spec.C17.judgeCase nsh [] body
+  let ok := Spec.C17.holdsOn good && badLines.isEmpty && eok
   -- the verdict list skips acknowledged history ops: pair it back with the judged observations
   let judged := goodT.filter fun (_, op, ans) => match op, ans with
     | .write .., .ok => false
@@ -45,7 +103,9 @@ def oracle (obs : List (List String × String)) : Verdict :=
     | .listingWrong => some ("listing-mismatch", toks)
     | .noAnswer => some ("no-answer", toks)
   let chosen : String × List String :=
-    if !badLines.isEmpty then ("bad-line", (badLines.head?.map (·.1)).getD []) else fails.headD ("unknown", [])
+    if !badLines.isEmpty then ("bad-line", (badLines.head?.map (·.1)).getD [])
+    else if !eok then ("epoch-blocking", (eobs.head?.map (·.1)).getD [])
+    else fails.headD ("unknown", [])
   -- the history up to the first failing observation makes the reason self-contained
   let has (p : Op → Bool) := good.any fun (op, _) => p op
   let tags :=
@@ -53,12 +113,24 @@ def oracle (obs : List (List String × String)) : Verdict :=
     (if has (fun o => match o with | .del _ _ none _ => true | _ => false) then ["nil-pred-delete"] else []) ++
     (if has (fun o => match o with | .del _ _ _ true => true | _ => false) then ["handler-mode"] else []) ++
     (if has (fun o => match o with | .snap _ => true | _ => false) then ["tsm+cache"] else []) ++
+    (if !egood.isEmpty then ["epoch"] else []) ++
+    (if egood.any (fun (_, a) => match a with | .started _ (_ :: _) => true | _ => false) then ["write-would-block"] else []) ++
+    (if egood.any (fun (_, a) => match a with | .installed _ p => p > 0 | _ => false) then ["delete-waits"] else []) ++
     (if good.any (fun (op, a) => match op, a with | .read _, .points (_ :: _) => true | _, _ => false) then ["data-left"] else [])
   let nobs := good.filter fun (op, _) => match op with | .read _ | .ls _ => true | _ => false
-  { ok := ok, nontrivial := has (fun o => match o with | .del .. => true | _ => false) && !nobs.isEmpty,
+  { ok := ok, nontrivial := (has (fun o => match o with | .del .. => true | _ => false) && !nobs.isEmpty) || egood.length > 2,
     tags := tags, reason := if ok then "" else chosen.1 ++ ":" ++ "_".intercalate chosen.2 }
 
-def driver : Driver (Option State) := { init := none, step := step, oracle := oracle }
+def stepAll (st : Option State × Tracker) (toks : List String) : (Option State × Tracker) × String :=
+  if isEpoch toks then
+    match parseEOp toks with
+    | some op => let r := Influx.Model.Epoch.step st.2 op; ((st.1, r.1), renderE r.2)
+    | none => (st, "bad-op")
+  else
+    let r := step st.1 toks
+    ((r.1, st.2), r.2)
+
+def driver : Driver (Option State × Tracker) := { init := (none, {}), step := stepAll, oracle := oracle }
 
 end Influx.Drv.C17
 
